@@ -117,7 +117,7 @@ func appendQueryPartLowerings(
 	appendLatePathMaterializationDecisions(plan, queryPartIndex, readingClauses, sourceReferences)
 	appendPatternPredicateProjectionLowerings(plan, queryPartIndex, queryPart, sourceReferences)
 	appendPatternPredicatePlacementDecisions(plan, queryPartIndex, queryPart)
-	appendExpandIntoDecisions(plan, queryPartIndex, readingClauses)
+	appendExpandIntoDecisions(plan, queryPartIndex, readingClauses, initialDeclaredSymbols)
 	appendTraversalDirectionDecisions(plan, queryPartIndex, readingClauses, bindingPredicateSymbols(predicateAttachments, queryPartIndex), initialDeclaredSymbols, initialSelectivity)
 	shortestPathSearchSymbols := shortestPathSearchPredicateSymbols(readingClauses)
 	appendShortestPathStrategyDecisions(plan, queryPartIndex, readingClauses, shortestPathSearchSymbols)
@@ -520,7 +520,7 @@ func appendPatternLatePathMaterializationDecisions(plan *LoweringPlan, target Pa
 	}
 }
 
-func appendExpandIntoDecisions(plan *LoweringPlan, queryPartIndex int, readingClauses []*cypher.ReadingClause) {
+func appendExpandIntoDecisions(plan *LoweringPlan, queryPartIndex int, readingClauses []*cypher.ReadingClause, carriedSymbols map[string]struct{}) {
 	declaredSymbols := map[string]struct{}{}
 
 	for clauseIndex, readingClause := range readingClauses {
@@ -555,6 +555,12 @@ func appendExpandIntoDecisions(plan *LoweringPlan, queryPartIndex int, readingCl
 
 				if leftSymbol == "" {
 					leftBound = stepIndex > 0
+				}
+
+				// A later step that ends in a node carried into this query part by WITH closes on a bound endpoint
+				// too; the generic step renderer would join the node table again without constraining it.
+				if _, carried := carriedSymbols[rightSymbol]; carried && stepIndex > 0 {
+					leftBound, rightBound = true, true
 				}
 
 				if rightSymbol == "" || !leftBound || !rightBound {
